@@ -52,6 +52,43 @@ def cell_of(K, S):
     return [a, b, c, sn(al), sn(be), sn(ga)]
 
 
+def directed_metric(rng, csys, choice, kind):
+    """integer reciprocal metrics for directed cases (orthogonal / hexagonal-axes systems only):
+       'high'    : one short reciprocal axis, so that the shell reaches indices >= 10 along it;
+       'neardeg' : nearly equal axes (relative difference ~1e-6), so that inequivalent reflections are separated by < 1e-6 in sin(theta)/lambda"""
+    r = lambda lo, hi: rng.randint(lo, hi)
+    if kind == 'high':
+        if csys == 'cubic':
+            return [[1, 0, 0], [0, 1, 0], [0, 0, 1]], 100
+        if csys == 'tetragonal':
+            return rng.choice([([[12, 0, 0], [0, 12, 0], [0, 0, 1]], 110), ([[1, 0, 0], [0, 1, 0], [0, 0, 9]], 110)])
+        if csys == 'orthorhombic':
+            d = [r(9, 14), r(9, 14), 1]
+            rng.shuffle(d)
+            return [[d[0], 0, 0], [0, d[1], 0], [0, 0, d[2]]], 115
+        if csys in ('hexagonal', 'trigonal') and choice != 'rhombohedral':
+            return rng.choice([([[16, 8, 0], [8, 16, 0], [0, 0, 1]], 125), ([[2, 1, 0], [1, 2, 0], [0, 0, 14]], 150)])
+        if csys == 'monoclinic':
+            return [[r(9, 14), 0, 0], [0, 1, 0], [0, 0, r(9, 14)]], 115
+        return [[r(9, 14), 0, 0], [0, r(9, 14), 0], [0, 0, 1]], 115
+    base = 100000 * r(6, 12)
+    if csys == 'tetragonal':
+        return [[base, 0, 0], [0, base, 0], [0, 0, base + 1]], 9 * base + 5
+    if csys == 'orthorhombic':
+        return [[base, 0, 0], [0, base + 1, 0], [0, 0, base + 2]], 9 * base + 50
+    if csys in ('hexagonal', 'trigonal') and choice != 'rhombohedral':
+        return [[2 * base, base, 0], [base, 2 * base, 0], [0, 0, 2 * base + 1]], 14 * base + 5
+    return None, None
+
+
+def make_directed_case(rng, s, kind):
+    K, M = directed_metric(rng, s.crystal_system, s.cell_choice, kind)
+    if K is None:
+        return None
+    S = 400.0 if kind == 'high' else 400.0 * 100000
+    return dict(K=K, S=S, cell=cell_of(K, S), M=M, m=None, lo=0.0, hi=0.5 * math.sqrt((M + 0.5) / S), scaled=False, kind=kind)
+
+
 def make_case(rng, s):
     K = int_metric(rng, s.crystal_system, s.cell_choice)
     S = 400.0
@@ -164,6 +201,19 @@ def search_cases(ctx):
                 continue
             for rep in range(ctx.n(1, 3) + (2 if no <= 15 else 0) + (2 if ctx.broken else 0) + (6 if s.cell_choice == 'rhombohedral' else 0)):
                 out.append((no, ch, s, make_case(rng, s)))
+    # directed cases: high indices (>= 10 along one axis) and nearly degenerate axes, one group per crystal system in the quick tier
+    by_sys = {}
+    for no in range(1, 231):
+        s = sg.sg(sgno=no)
+        if s.cell_choice != 'rhombohedral':
+            by_sys.setdefault(s.crystal_system, []).append((no, s))
+    for csys, lst in sorted(by_sys.items()):
+        picks = lst if (ctx.broken or not ctx.quick) and len(lst) <= 80 else rng.sample(lst, min(len(lst), 2 if ctx.quick else 12))
+        for no, s in picks:
+            for kind in ('high', 'neardeg'):
+                c = make_directed_case(rng, s, kind)
+                if c is not None:
+                    out.append((no, 'standard', s, c))
     if ctx.broken or not ctx.quick:
         # directed sweep: Laue -3 on rhombohedral axes (the only place where the 1.1 look-ahead factor acts), acute cells, large shells
         for no in (146, 148):
@@ -213,4 +263,34 @@ def sysabs_box_mismatches(H=4):
                     out.append((no, ch, h, 'absent by sysabs but not extinguished by any operation'))
                     break
                 # the converse only has to hold for the representative the traversal visits; it is checked through genhkl_all below
+    return out
+
+
+def boundary_cases(ctx):
+    """directed cases for 'sintlmin exclusive, sintlmax inclusive': the bound is the module's own sintl of a point h0 of the traversal's cone
+       (the very point the code evaluates, so the two floats are bit-identical); monotone systems only, where the clean tree is complete"""
+    from xfab import sg
+    from . import tables
+    rng = ctx.rng
+    tabs, _ = tables.extract_segm('laue')
+    segs_of = {}
+    for laue, rh, segs in tabs:
+        if rh is not True:
+            segs_of[laue] = segs
+    out = []
+    cand = [no for no in range(16, 231) if no not in range(143, 168)]
+    for no in (cand if (ctx.broken or not ctx.quick) else rng.sample(cand, 24)):
+        s = sg.sg(sgno=no)
+        if s.Laue not in ('mmm', '4/mmm', '4/m', 'm-3m', 'm-3', '6/mmm', '6/m'):
+            continue
+        K = int_metric(rng, s.crystal_system, s.cell_choice)
+        cell = cell_of(K, 400.0)
+        R, t = HR.ops_int(s)
+        for _try in range(30):
+            seg = rng.choice(segs_of[s.Laue])
+            c0, d1, d2, d3 = [np.array(v) for v in seg]
+            h0 = tuple(int(x) for x in (c0 + rng.randint(0, 3) * d1 + rng.randint(0, 3) * d2 + rng.randint(0, 3) * d3))
+            if any(h0) and not HR.extinct(h0, R, t):
+                out.append((no, s, K, cell, h0))
+                break
     return out
